@@ -232,7 +232,14 @@ class HistogramDensityMethod(BatchDetector):
             y_true (numpy.array): true labels for dataset - not used by HDM
             y_pred (numpy.array): predicted labels for dataset - not used by HDM
         """
+        prior_input = (self._input_cols, self._input_col_dim)
         X, _, _ = super()._validate_input(X, None, None)
+        if self.detect_batch == 1 and X.shape[0] < 3:
+            # the second half of the reference is used as a test batch
+            self._input_cols, self._input_col_dim = prior_input
+            raise ValueError(
+                "With detect_batch=1 the reference batch must contain at least three observations."
+            )
         X = pd.DataFrame(
             X, columns=self._input_cols
         )  # TODO: subsequent operations expect dataframes, not numpy arrays
